@@ -326,6 +326,20 @@ def oracle(ctx, res):
                 os.chmod(tree.path("hello.pyg"), 0o755)
                 kw["handlers.ZIP.ZIPHandler|enabled"] = "true"
                 handlers = pyg.FULL_HANDLERS
+                # an archive inside an archive (whatever the server makes of it, it makes it below the root: an archive's own
+                # index file is named after the archive, and an archive-internal name is not a path of the file system)
+                import io
+                import zipfile
+                inner = io.BytesIO()
+                with zipfile.ZipFile(inner, "w") as z:
+                    z.writestr("in.txt", b"inside the inner archive\n")
+                    z.writestr("deep/er.txt", b"deeper\n")
+                with zipfile.ZipFile(os.fsdecode(tree.path("nest.zip")), "w") as z:
+                    z.writestr("inner.zip", inner.getvalue())
+                    z.writestr("sub/inner2.zip", inner.getvalue())
+                    z.writestr("plain.txt", b"plain member\n")
+                objs = objs + [("/nest.zip", "dir"), ("/nest.zip/plain.txt", "file"), ("/nest.zip/inner.zip", "file"), ("/nest.zip/inner.zip/in.txt", "file"),
+                               ("/nest.zip/sub/inner2.zip/deep/er.txt", "file"), ("/nest.zip/inner.zip/deep", "dir")]
             else:
                 handlers = None
             cfg = pyg.make_config(tree.root, handlers, **kw)
